@@ -10,7 +10,8 @@ MANIFEST = dict(
              "statement by statement) for M=1..8 (quick) / 1..10 (thorough) and checks that it refines 'per-slot minima "
              "and their maximum'; every transition of those graphs is replayed on the real tracker and leaves, maximum, "
              "is_update_possible and reset are compared; random update/reset sequences at M up to 5000 are recorded from "
-             "the real tracker and validated by TLC against the abstract layer (TraceMaxTracker.tla).",
+             "the real tracker and validated by TLC against the abstract layer (TraceMaxTracker.tla)."
+             " One tracker per size lives through 140000 (updates, reset) cycles (every node rewritten often / nodes last written 2^16 resets ago) and is compared with a new tracker around every multiple of 2^8 and 2^16 resets.",
         design_ref="DESIGN.md section 4, C15",
         note="trusted: TLC, the guarded wrapper verif::VerifMaxTracker (forwarding only), the order isomorphism between "
              "model values and reals; exhaustive only for the listed (M,V)",
